@@ -26,6 +26,16 @@ type c18Step struct {
 	Model string `json:"model"`
 }
 
+// safeClose closes a File; a panic inside Close (which then never reaches the unlock) is reported as an error value.
+func safeClose(f *txfile.File) (err error) {
+	defer func() {
+		if r := recover(); r != nil {
+			err = fmt.Errorf("File.Close panicked: %v", r)
+		}
+	}()
+	return f.Close()
+}
+
 func classifyOpen(err error) string {
 	if err == nil {
 		return "ok"
@@ -57,7 +67,7 @@ func c18Sequence(rep *Report, m *model.Client, r *rand.Rand, dir string, idx int
 			if open == nil {
 				continue
 			}
-			err := open.Close()
+			err := safeClose(open)
 			open, held = nil, false
 			impl, mod = classifyOpen(err), "ok"
 			if err != nil {
@@ -99,10 +109,12 @@ func c18Sequence(rep *Report, m *model.Client, r *rand.Rand, dir string, idx int
 			case err := <-done:
 				impl = "returned-while-held:" + classifyOpen(err)
 				if f2 != nil {
-					f2.Close()
+					safeClose(f2)
 				}
 			case <-time.After(30 * time.Millisecond):
-				open.Close()
+				if cerr := safeClose(open); cerr != nil {
+					fail("path-lock/close-panics", cerr.Error())
+				}
 				open = nil
 				select {
 				case err := <-done:
@@ -151,7 +163,7 @@ func c18Sequence(rep *Report, m *model.Client, r *rand.Rand, dir string, idx int
 					f2, err := txfile.Open(p2, 0o600, o2)
 					c := classifyOpen(err)
 					if f2 != nil {
-						f2.Close()
+						safeClose(f2)
 					}
 					mres := firstWord(m.Ask("openstep 0 1 1 0"))
 					steps = append(steps, c18Step{Op: "open-new-too-small", Impl: c, Model: mres})
@@ -171,7 +183,7 @@ func c18Sequence(rep *Report, m *model.Client, r *rand.Rand, dir string, idx int
 			if err == nil {
 				if open != nil {
 					fail("path-lock/two-files-open", "a second Open of the same path succeeded while the first File is open")
-					f.Close()
+					safeClose(f)
 				} else {
 					open, held, exists = f, true, true
 				}
@@ -192,7 +204,9 @@ func c18Sequence(rep *Report, m *model.Client, r *rand.Rand, dir string, idx int
 		}
 	}
 	if open != nil {
-		open.Close()
+		if cerr := safeClose(open); cerr != nil {
+			fail("path-lock/close-panics", cerr.Error())
+		}
 	}
 	// after any history the path can be opened again immediately
 	f, err := txfile.Open(path, 0o600, good)
@@ -201,7 +215,7 @@ func c18Sequence(rep *Report, m *model.Client, r *rand.Rand, dir string, idx int
 			fail("path-lock/stuck-after-history", fmt.Sprintf("after closing everything the path can not be locked: %v; steps: %v", err, steps))
 		}
 	} else {
-		f.Close()
+		safeClose(f)
 	}
 	rep.Evaluations++
 	key := ""
@@ -226,7 +240,7 @@ func c18Unmapped(rep *Report, r *rand.Rand) {
 		}
 		tx, err := f.Begin()
 		if err != nil {
-			f.Close()
+			safeClose(f)
 			continue
 		}
 		tx.AllocN(100 + r.Intn(100)) // grows the file past its 64 KiB mapping: the commit has to re-map
@@ -237,7 +251,7 @@ func c18Unmapped(rep *Report, r *rand.Rand) {
 		rep.Evaluations++
 		rep.count(fmt.Sprintf("unmapped-close:%v:commit-failed=%v:mapped=%v", fk, cerr != nil, mapped > 0), 1)
 		done := make(chan error, 1)
-		go func() { done <- f.Close() }()
+		go func() { done <- safeClose(f) }()
 		select {
 		case <-done:
 		case <-time.After(10 * time.Second):
